@@ -204,6 +204,21 @@ def start_of(aut):
     return aut.start_vertices[0]
 
 
+def bfs_ids(aut, names):
+    """the breadth-first renumbering of the states used by `table_of` (state -> row index)"""
+    g = graph_of(aut, names)
+    ids, order = {start_of(aut): 0}, [start_of(aut)]
+    i = 0
+    while i < len(order):
+        for l in sorted(g.get(order[i], {})):
+            t = g[order[i]][l]
+            if t not in ids:
+                ids[t] = len(order)
+                order.append(t)
+        i += 1
+    return ids
+
+
 def table_of(aut, names):
     """transition table (rows = states renumbered breadth-first from the start state, columns = generator indices)"""
     g = graph_of(aut, names)
@@ -313,10 +328,28 @@ def judge_aut(inp, obs, lr):
     return None
 
 
+def _rand_word(rng, rank, length):
+    """random word in generator indices; two times out of three without immediate repetitions (so that a fair share is accepted)"""
+    w, norep = [], rng.random() < 0.67
+    for _ in range(length):
+        k = rng.randrange(rank)
+        if norep and rank > 1 and w and k == w[-1]:
+            k = (k + 1 + rng.randrange(rank - 1)) % rank
+        w.append(k)
+    return w
+
+
 def gen_even(rng, n):
     for M in matrices(rng, n):
         spec = X.rand_spec(rng, M, allow_multichar=True)
-        yield {"spec": spec, "lex": rng.random() < 0.5}
+        lex = rng.random() < 0.5
+        rank = len(M)
+        # words followed in the plain automaton (Table.follow vs follow_word) and sequences of 2-letter labels followed in the
+        # even automaton (EvenG.follow / follow2 / unblock vs accepts of the even automaton and follow_word of the plain one)
+        words = [[]] + [_rand_word(rng, rank, rng.randrange(1, 8)) for _ in range(5)]
+        pairs = [[]] + [[[w[2 * i], w[2 * i + 1]] for i in range(len(w) // 2)]
+                        for w in (_rand_word(rng, rank, 2 * rng.randrange(1, 4)) for _ in range(4))]
+        yield {"spec": spec, "lex": lex, "words": words, "pairs": pairs}
 
 
 def run_even(inp):
@@ -338,13 +371,31 @@ def run_even(inp):
     if unknown:
         return {"table": tab, "even": None, "unknown_labels": unknown[:5], "n": n}
     g = {v: {lab[l]: t for l, t in nb.items()} for v, nb in ev.graph_dict.items()}
-    return {"table": tab, "even": minimal_form(g, start_of(ev)), "n_starts": len(ev.start_vertices), "n": n}
+    out = {"table": tab, "even": minimal_form(g, start_of(ev)), "n_starts": len(ev.start_vertices), "n": n}
+    if "words" in inp:
+        ids = bfs_ids(aut, names)
+
+        def end(a, word):
+            try:
+                return ids[a.follow_word(word)]
+            except Exception as e:
+                if type(e).__name__ == "FSAException":
+                    return None
+                raise
+        out["follow"] = [end(aut, [names[k] for k in w]) for w in inp["words"]]
+        out["pair_follow"] = [end(aut, [names[k] for p in ps for k in p]) for ps in inp["pairs"]]
+        out["even_accepts"] = [bool(ev.accepts([names[a] + names[b] for a, b in ps])) for ps in inp["pairs"]]
+    return out
 
 
 def lean_even(inp, obs):
     if "exc" in obs or "skipped" in obs or len(obs["table"]) > MAX_MODEL_STATES:
         return []
-    return [{"op": "c07.even", "rank": obs["n"], "table": obs["table"], "fuel": 100000}]
+    ops = [{"op": "c07.even", "rank": obs["n"], "table": obs["table"], "fuel": 100000}]
+    if "follow" in obs:
+        ops.append({"op": "c07.follow", "rank": obs["n"], "table": obs["table"], "fuel": 100000, "words": inp["words"],
+                    "pairs": inp["pairs"]})
+    return ops
 
 
 def judge_even(inp, obs, lr):
@@ -362,6 +413,20 @@ def judge_even(inp, obs, lr):
     if minimal_form(g, 0) != obs["even"] or obs["n_starts"] != 1:
         return {"expected": {"minimal DFA of the model's even automaton": minimal_form(g, 0)[:40]}, "observed": obs["even"][:40],
                 "tags": {"what": "even-language"}}
+    if len(lr) > 1 and "follow" in obs:
+        if "err" in lr[1]:
+            return {"expected": "model answer", "observed": lr[1], "tags": {"driver_err": lr[1]["err"][:40], "what": "follow"}}
+        r = lr[1]["ok"]
+        # Table.follow = follow_word (end state, in the breadth-first numbering of the table)
+        if r["follow"] != obs["follow"]:
+            return {"expected": {"model Table.follow": r["follow"]}, "observed": {"follow_word": obs["follow"], "words": inp["words"]},
+                    "tags": {"what": "follow-word"}}
+        for ps, e, pf, acc in zip(inp["pairs"], r["even"] or [], obs["pair_follow"], obs["even_accepts"]):
+            flat = [k for p in ps for k in p]
+            if e["unblock"] != flat or e["follow2"] != pf or (e["even"] is not None) != acc or e["even"] != e["follow2"]:
+                return {"expected": {"model": e}, "observed": {"labels": ps, "follow_word of the concatenation": pf,
+                                                               "even automaton accepts": acc},
+                        "tags": {"what": "even-follow"}}
     return None
 
 
@@ -724,6 +789,50 @@ def judge_r2(inp, obs, lr):
     if not (obs["geo_ok"] and obs["lex_ok"]):
         return {"expected": "rank 2 (proved for the model): geodesic = alternating words of length <= m; shortlex = the same minus "
                             "the word 1 0 1 ... of length m", "observed": obs, "tags": {"m": inp["m"], "what": "rank2-language"}}
+    return None
+
+
+# ---- rank 2, correspondence: the model pipeline with the constants of the end-to-end theorems ----------------------
+R2_COS = {2: "0", 3: "-1/2"}
+
+
+def gen_r2corr(rng, n):
+    for m in (2, 3, 0, -1, -3):
+        for lex in (False, True):
+            for eps in ("eps0", "eps6"):
+                yield {"m": m, "lex": lex, "eps": eps}
+
+
+def run_r2corr(inp):
+    from geometry_tools import coxeter
+    m = inp["m"]
+    G = coxeter.CoxeterGroup(matrix=np.array([[1, m], [m, 1]]))
+    names = list(G.ordered_gens)
+    aut = G.automaton(shortlex=inp["lex"], even_length=False)
+    g = graph_of(aut, names)
+    return {"minimal": minimal_form(g, start_of(aut)), "nstates": len(aut.graph_dict), "n_starts": len(aut.start_vertices)}
+
+
+def lean_r2corr(inp, obs):
+    if "exc" in obs:
+        return []
+    return [{"op": "c07.rank2", "c": R2_COS.get(inp["m"], "-1"), "eps": inp["eps"], "lex": inp["lex"]}]
+
+
+def judge_r2corr(inp, obs, lr):
+    tags = {"m": inp["m"], "lex": inp["lex"], "eps": inp["eps"]}
+    if "exc" in obs:
+        return {"expected": "automaton of a dihedral group", "observed": obs, "tags": {**tags, "exc": obs["exc"]}, "property_failure": True}
+    if "err" in lr[0]:
+        return {"expected": "model answer within the fuel 8/8/16 of the theorems", "observed": lr[0], "tags": {**tags, "driver_err": lr[0]["err"][:40]}}
+    r = lr[0]["ok"]
+    if r["eps"] != {"eps0": "0", "eps6": "1/1000000"}[inp["eps"]]:
+        return {"expected": "threshold constant of the theorems", "observed": r["eps"], "tags": {**tags, "what": "eps-constant"}}
+    mf = minimal_form(table_graph(r["table"]))
+    if mf != obs["minimal"] or obs["n_starts"] != 1:
+        return {"expected": {"minimal DFA of coxeterAutomaton eps (form2 c) 8 8 16 lex": mf, "small roots": r["roots"]},
+                "observed": {"minimal DFA of the implementation": obs["minimal"], "states": obs["nstates"]},
+                "tags": {**tags, "what": "rank2-automaton-language"}}
     return None
 
 
@@ -1103,7 +1212,12 @@ CLAUSES = [
                 "matrices over {2..7,inf} up to relabelling (inf written 0/-1/-3), samples of rank 4-5, both constructor routes"),
     Clause("even_corr", "corr", gen_even, run_even, judge_even, lean=lean_even,
            site="coxeter.CoxeterGroup.automaton(even_length=True) / fsa.automaton_multiple", budget={"quick": 50, "thorough": 800},
-           what="even_automaton of the implementation's table vs Lean evenAutomaton (up to BFS renumbering)"),
+           what="even_automaton of the implementation's table vs Lean evenAutomaton (up to BFS renumbering); follow_word on random "
+                "words vs Table.follow, and sequences of 2-letter labels in the even automaton vs EvenG.follow / follow2 / unblock"),
+    Clause("rank2_corr", "corr", gen_r2corr, run_r2corr, judge_r2corr, lean=lean_r2corr, site="coxeter.CoxeterGroup.automaton (rank 2)",
+           budget={"quick": 20, "thorough": 20},
+           what="the model pipeline exactly as the end-to-end rank-2 theorems state it (coxeterAutomaton eps (form2 c) 8 8 16 lex, "
+                "eps in {eps0, eps6}, c = 0, -1/2, -1) vs the implementation's automaton for m = 2, 3, infinity: same language"),
     Clause("rank2_hypothesis_oracle", "oracle", gen_r2, run_r2, judge_r2, site="coxeter.CoxeterGroup.automaton (rank 2)",
            budget={"quick": 14, "thorough": 14},
            what="the CONCLUSION of the Lean rank-2 theorems (central clause proved for the model) on the implementation's automata for "
